@@ -29,10 +29,8 @@ pub fn run(cx: &mut Ctx) {
     let p = Prog { shape: Shape::KG, src: vec![V::pair(V::I(0), V::L(vec![V::I(1)])), V::pair(V::I(0), V::L(vec![V::I(2)]))], steps: vec![Step::CombineValuesLifted(Comb::Sum)] };
     check_prog(cx, &p, &[Mode::Seq, Mode::Par(2)], &o);
 
-    // a lawful NON-commutative user combiner (outside the "associative and commutative" clause; the model's theorems
-    // need only `LawfulCombiner`): correspondence + reference = last value in source order
-    let n = cx.budget(120, 1200);
-    crate::pipe::ordered_comb_cases(cx, n, &o);
+    // (the lawful NON-commutative combiner `ULast` is outside C05's "associative and commutative" clause: it is exercised
+    // by C01 (seq = par) and C03 (lifted = literal), not judged here)
     // a legal `Hash` far coarser than `Eq` on the key / element type
     let n = cx.budget(80, 800);
     crate::pipe::coarse_hash_cases(cx, n, &o);
